@@ -46,11 +46,14 @@ def menu_model(body):
 
 # contexts: (name, before, after, multiplicity)
 CONTEXTS = [
-    ('top', '', '', 1), ('unk', '\\xxx{', '}', 1), ('textbf', '\\textbf{Wa ', ' Wb}', 1), ('footnote', '\\footnote{Wc ', ' Wd}', 1),
-    ('item', '\\begin{itemize}\\item ', '\\end{itemize}', 1), ('heading', '\\section{We ', ' Wf}', 1),
-    ('citeopt', '\\cite[', ']{k}', 1), ('um1', '\\mOne{', '}', 1), ('um2', '\\mTwo{', '}', 2),
-    ('textdisp', '\\begin{equation}z = y \\text{ Wg ', ' Wh}\\end{equation}', 1), ('subsec', '\\subsection*{', '}', 1),
-    ('footnote-in-heading', '\\section{Wi\\footnote{', '}}', 1),
+    # the formula is never the first or last token of an argument: decorations of the enclosing
+    # construct (heading dot, closing bracket of a citation, body text of a user macro, separator
+    # of a detached flow) are positioned at the neighbouring token and would be confused with it
+    ('top', '', '', 1), ('unk', '\\xxx{Wk ', ' Wl}', 1), ('textbf', '\\textbf{Wa ', ' Wb}', 1), ('footnote', '\\footnote{Wc ', ' Wd}', 1),
+    ('item', '\\begin{itemize}\\item Wm ', ' Wn\\end{itemize}', 1), ('heading', '\\section{We ', ' Wf}', 1),
+    ('citeopt', '\\cite[Wo ', ' Wp]{k}', 1), ('um1', '\\mOne{Wq ', ' Wr}', 1), ('um2', '\\mTwo{Ws ', ' Wt}', 2),
+    ('textdisp', '\\begin{equation}z = y \\text{ Wg ', ' Wh}\\end{equation}', 1), ('subsec', '\\subsection*{Wu ', ' Wv}', 1),
+    ('footnote-in-heading', '\\section{Wi\\footnote{Ww ', ' Wx}}', 1),
 ]
 PRE = '\\newcommand{\\mOne}[1]{<#1>}\\newcommand{\\mTwo}[1]{#1 and #1}\n'
 
